@@ -21,6 +21,7 @@ from .. import tracetab
 from ..astutil import call_name, calls, dotted, names_in, param_names, stmts, walk_local
 from ..core import AnalysisError, Mutant
 from ..exprnorm import canon, contains_expr, same_expr, spec
+from ..exprnorm import has_code
 
 EXPLANATION = (
     "Exhaustive evaluation of the trace selectors from their ASTs over all weak orderings of their "
@@ -226,7 +227,7 @@ def run(ctx):
     want_s = {state_tables[k]: en["TraceState"][k.upper() + "_STATE"] for k in state_tables}
     ctx.ob("R3.start-states", PW, "align_optimal", str(sorted(starts.items())), starts == want_s,
            f"the traceback must start in the state of the table that holds the maximum: {want_s}", ao.lineno)
-    ctx.ob("R3.start-states", PW, "align_optimal", "local affine start: MATCH_STATE", "np.full(len(i_list), 1)" in t
+    ctx.ob("R3.start-states", PW, "align_optimal", "local affine start: MATCH_STATE", has_code(ao, "np.full(len(i_list), 1)")
            and en["TraceState"]["MATCH_STATE"] == 1, "local alignments end with a match", ao.lineno, nontrivial=False)
     # ---- set-up of align_optimal -------------------------------------------------------------
     from ..lints import alphabets_fit_matrix
